@@ -1,5 +1,6 @@
 import FormulaicVerif.Engines.Json
 import FormulaicVerif.Model.Contrasts
+import FormulaicVerif.Model.ContrastsCache
 import FormulaicVerif.Spec.Contrasts
 namespace FormulaicVerif.Engines.C11
 open Lean FormulaicVerif.Model.Contrasts FormulaicVerif.Engines
@@ -85,6 +86,43 @@ def encodedJ (e : Encoded × List Label) : Json :=
     ("format_reduced", Json.str e.1.formatReduced),
     ("categories", jlist (e.2.map labelJ))]
 
+def merrJ : FormulaicVerif.Model.ContrastsCache.MErr → Json
+  | .encode e => errJ e
+  | .keyError => jerr "KeyError"
+
+/-- put the per-factor answers back into the order of the history -/
+def interleave : List String → List Json → List Json → List Json
+  | [], _, _ => []
+  | "A" :: ws, a :: as, bs => a :: interleave ws as bs
+  | _ :: ws, as, b :: bs => b :: interleave ws as bs
+  | _ :: ws, as, [] => Json.null :: interleave ws as []
+
+/-- op "formula": one materialization; `history` lists the uses of the contrast factors A (`contrast`) and
+B (`contrast2`, same column, same levels) in materialization order as `{which, reduced, newspec}`. Each factor
+expression has its own cache entries, so each runs through `Model.ContrastsCache.materialize` on its own
+sub-history. -/
+def formulaFor (j : Json) : Json :=
+  let levels := if (jval j "levels").isNull then none else some ((jarr j "levels").map labelOf)
+  let data := (jarr j "data").map optLabelOf
+  let out := jstr j "output"
+  let hist := jarr j "history"
+  let cats := match levels with
+    | some ls => ls
+    | none => inferLevels data
+  let runOne (which : String) (c : Contrast) : Except FormulaicVerif.Model.ContrastsCache.MErr (List Json) :=
+    let qs := (hist.filter fun h => jstr h "which" == which).map fun h =>
+      (⟨jbool h "reduced", jbool h "newspec"⟩ : FormulaicVerif.Model.ContrastsCache.Request)
+    match FormulaicVerif.Model.ContrastsCache.materialize ⟨data, c, levels, out, none⟩ qs with
+    | .error e => .error e
+    | .ok encs => .ok ((encs.zip qs).map fun (e, q) =>
+        Json.mkObj [("enc", encodedJ (e, cats)),
+                    ("norms2", exceptJ (fun l => jlist (l.map ratJ)) (codingNorms2 c cats q.reduced))])
+  match runOne "A" (contrastOf (jval j "contrast")),
+        (if (jval j "contrast2").isNull then .ok [] else runOne "B" (contrastOf (jval j "contrast2"))) with
+  | .error e, _ => merrJ e
+  | _, .error e => merrJ e
+  | .ok as, .ok bs => Json.mkObj [("encs", jlist (interleave (hist.map fun h => jstr h "which") as bs))]
+
 def handle (j : Json) : Json :=
   let c := contrastOf (jval j "contrast")
   match jstr j "op" with
@@ -100,6 +138,7 @@ def handle (j : Json) : Json :=
         | .ok (_, cats) => exceptJ (fun l => jlist (l.map ratJ)) (codingNorms2 c cats reduced)
         | .error _ => Json.null
       Json.mkObj [("enc", exceptJ encodedJ enc), ("norms2", norms)]
+  | "formula" => formulaFor j
   | _ => jerr "unknown-op"
 
 end FormulaicVerif.Engines.C11
